@@ -8,6 +8,7 @@
 -/
 import EEM.Model.Gate
 import EEM.Gen.Guards
+import EEM.Gen.Footprint
 
 namespace EEM.Props.C04
 open EEM.Model.Gate EEM.Gen.Guards
@@ -87,5 +88,19 @@ theorem C04_override_opens_gate (e : Env) (hf : e.fitted = true) (ht : e.rightTy
 
 /-! ### Non-vacuity -/
 example : evalGuards dailyPredict ⟨true, false, true, false, true, true, false, false⟩ = some .disqualifiedModelError := by decide
+
+/-- **a fitted model carries its baseline's disqualification**: in the daily, billing and hourly families
+`fit` takes over the baseline data's list by assignment, and no method reached from `fit` rebinds
+`self.disqualification` afterwards (the poor-fit disqualification is appended, never assigned) — so what
+closed the fit gate without the override is what closes the predict gate of the fitted model
+(tables regenerated from the source on every run) -/
+theorem C04_fit_keeps_inherited_disqualification :
+    EEM.Gen.Footprint.daily_fit_inherits_disqualification = true
+    ∧ EEM.Gen.Footprint.billing_fit_inherits_disqualification = true
+    ∧ EEM.Gen.Footprint.hourly_fit_inherits_disqualification = true
+    ∧ EEM.Gen.Footprint.daily_fit_path_rebinds_disqualification = []
+    ∧ EEM.Gen.Footprint.billing_fit_path_rebinds_disqualification = []
+    ∧ EEM.Gen.Footprint.hourly_fit_path_rebinds_disqualification = [] := by
+  decide +kernel
 
 end EEM.Props.C04
